@@ -49,6 +49,10 @@ impl ImportResolver for MemResolver {
 		}
 	}
 	fn load_file_contents(&self, resolved: &SourcePath) -> jrsonnet_evaluator::Result<Vec<u8>> {
+		if let Some(f) = resolved.downcast_ref::<jrsonnet_ir::SourceFifo>() {
+			// inline code (ext-code / tla-code) is served from the path itself, as the file resolver does
+			return Ok(f.1.to_vec());
+		}
 		let Some(v) = resolved.downcast_ref::<SourceVirtual>() else {
 			return Err(ErrorKind::RuntimeError("mem resolver: bad path".into()).into());
 		};
